@@ -2,6 +2,8 @@ import Cuckoo.Proofs.Search
 /-!
 Chunk D — the insertion loop and the resize paths preserve the invariant and the live view
 (`cuckoo_insert_loop`, `cuckoo_fast_double`, `cuckoo_expand_simple`).  Helper lemmas only.
+
+The auxiliary lemmas live in the namespace `Cuckoo.Model.Rz`; the four chunk theorems are at the end.
 -/
 namespace Cuckoo.Model
 open Cuckoo
@@ -11,7 +13,17 @@ variable {κ ν : Type}
 def ResizeErr (e : Err) : Prop :=
   e = .loadFactorTooLow ∨ e = .maxHpExceeded ∨ e = .badAlloc ∨ e = .fuel
 
-theorem maybeResizeLocks_spec (c : Cfg κ) (t : Table κ ν) (n : Nat) :
+namespace Rz
+
+
+
+theorem foldl_cnt_replicate (n : Nat) (b : Int) (m : Bool) :
+    (Array.replicate n (⟨0, m⟩ : Lock)).foldl (fun s l => s + l.cnt) b = b := by
+  induction n with
+  | zero => simp
+  | succ n ih => rw [Array.replicate_succ, Array.foldl_push, ih]; simp
+
+theorem maybeResizeLocks_spec' (c : Cfg κ) (t : Table κ ν) (n : Nat) :
     (t.maybeResizeLocks c n).cur = t.cur ∧ (t.maybeResizeLocks c n).old = t.old ∧
     (t.maybeResizeLocks c n).rem = t.rem ∧ (t.maybeResizeLocks c n).rc = t.rc ∧
     (t.maybeResizeLocks c n).mlf = t.mlf ∧ (t.maybeResizeLocks c n).mhp = t.mhp ∧
@@ -20,7 +32,797 @@ theorem maybeResizeLocks_spec (c : Cfg κ) (t : Table κ ν) (n : Nat) :
     (AllMig t → AllMig (t.maybeResizeLocks c n)) ∧
     (∀ (i : Nat) (lk : Lock), t.locks[i]? = some lk → (t.maybeResizeLocks c n).locks[i]? = some lk) ∧
     t.locks.size ≤ (t.maybeResizeLocks c n).locks.size := by
-  sorry
+  unfold Table.maybeResizeLocks
+  split
+  · refine ⟨rfl, rfl, rfl, rfl, rfl, rfl, rfl, ?_, ?_, ?_, ?_⟩
+    · simp only [Table.sumCnt, Array.foldl_append, foldl_cnt_replicate]
+    · intro ha i lk hlk
+      simp only [Array.getElem?_append] at hlk
+      split at hlk
+      · exact ha i lk hlk
+      · rw [Array.getElem?_replicate] at hlk
+        split at hlk
+        · cases hlk; rfl
+        · cases hlk
+    · intro i lk hlk
+      have hi : i < t.locks.size := by
+        apply Nat.lt_of_not_le; intro hge
+        rw [Array.getElem?_eq_none hge] at hlk; cases hlk
+      simp only [Array.getElem?_append, hi, ↓reduceIte, hlk]
+    · simp
+  · exact ⟨rfl, rfl, rfl, rfl, rfl, rfl, rfl, rfl, fun h => h, fun _ _ h => h, Nat.le_refl _⟩
+
+
+theorem allMig_nUnmig {t : Table κ ν} (h : AllMig t) : t.nUnmig = 0 := by
+  unfold Table.nUnmig
+  rw [List.length_eq_zero_iff, List.filter_eq_nil_iff]
+  intro a ha
+  rw [Array.mem_toList_iff, Array.mem_iff_getElem?] at ha
+  obtain ⟨i, hi⟩ := ha
+  simp [h i a hi]
+
+theorem nUnmig_map_false (xs : Array Lock) :
+    ((xs.map (fun l => ({ l with migrated := false } : Lock))).toList.filter (fun l => !l.migrated)).length = xs.size := by
+  rw [List.filter_eq_self.mpr]
+  · simp
+  · intro a ha
+    simp only [Array.toList_map, List.mem_map] at ha
+    obtain ⟨x, _, rfl⟩ := ha
+    rfl
+
+theorem foldl_cnt_map (xs : Array Lock) (f : Lock → Lock) (hf : ∀ x, (f x).cnt = x.cnt) (b : Int) :
+    (xs.map f).foldl (fun s l => s + l.cnt) b = xs.foldl (fun s l => s + l.cnt) b := by
+  rw [Array.foldl_map]
+  simp only [hf]
+
+theorem min_two_pow (a b : Nat) : min (2 ^ a) (2 ^ b) = 2 ^ (min a b) := by
+  rcases Nat.le_total a b with h | h
+  · rw [Nat.min_eq_left h, Nat.min_eq_left (Nat.pow_le_pow_right (by decide) h)]
+  · rw [Nat.min_eq_right h, Nat.min_eq_right (Nat.pow_le_pow_right (by decide) h)]
+
+theorem live_iff_cur {c : Cfg κ} {t : Table κ ν} (h : ∀ b, t.unmigB c b = false) (sl : Slot κ ν) :
+    t.Live c sl ↔ ∃ b s, t.cur.get c.S b s = some sl := by
+  constructor
+  · rintro ⟨p, hp⟩
+    cases p with
+    | cur b s => exact ⟨b, s, hp⟩
+    | old b s =>
+      simp only [Table.at, h b] at hp
+      split at hp <;> simp at hp
+  · rintro ⟨b, s, hp⟩
+    exact ⟨.cur b s, hp⟩
+
+theorem mem_elems {S : Nat} (hS : 0 < S) (st : Store κ ν) (sl : Slot κ ν) :
+    sl ∈ st.elems ↔ ∃ b s, st.get S b s = some sl := by
+  unfold Store.elems
+  rw [List.mem_filterMap]
+  constructor
+  · rintro ⟨a, ha, hid⟩
+    simp only [id] at hid
+    subst hid
+    rw [Array.mem_toList_iff, Array.mem_iff_getElem?] at ha
+    obtain ⟨i, hi⟩ := ha
+    refine ⟨i / S, i % S, ?_⟩
+    have hm := Nat.mod_lt i hS
+    have hd := Nat.div_add_mod i S
+    have e : i / S * S + i % S = i := by rw [Nat.mul_comm]; exact hd
+    simp only [Store.get, hm, ↓reduceIte, e, Array.getD_eq_getD_getElem?, hi, Option.getD_some]
+  · rintro ⟨b, s, h⟩
+    have ⟨hs, hlt⟩ := Store.get_some_lt h
+    refine ⟨some sl, ?_, rfl⟩
+    rw [Array.mem_toList_iff, Array.mem_iff_getElem?]
+    refine ⟨b * S + s, ?_⟩
+    simp only [Store.get, hs, ↓reduceIte, Array.getD_eq_getD_getElem?] at h
+    rw [Array.getElem?_eq_getElem hlt] at h ⊢
+    simpa using h
+
+
+theorem get_of_cell {S : Nat} (hS : 0 < S) (st : Store κ ν) (i : Nat) (sl : Slot κ ν)
+    (hi : st.cells[i]? = some (some sl)) : st.get S (i / S) (i % S) = some sl := by
+  have hm := Nat.mod_lt i hS
+  have hd := Nat.div_add_mod i S
+  have e : i / S * S + i % S = i := by rw [Nat.mul_comm]; exact hd
+  simp only [Store.get, hm, ↓reduceIte, e, Array.getD_eq_getD_getElem?, hi, Option.getD_some]
+
+theorem elems_pairwise {S : Nat} (hS : 0 < S) (st : Store κ ν)
+    (huniq : ∀ b s b' s' sl sl', st.get S b s = some sl → st.get S b' s' = some sl' → sl.key = sl'.key →
+      b = b' ∧ s = s') :
+    st.elems.Pairwise (fun a b => a.key ≠ b.key) := by
+  unfold Store.elems
+  rw [List.pairwise_filterMap, List.pairwise_iff_getElem]
+  intro i j hi hj hij a ha b hb heq
+  simp only [id] at ha hb
+  have h1 : st.cells[i]? = some (some a) := by
+    rw [← ha, ← Array.getElem?_toList, List.getElem?_eq_getElem hi]
+  have h2 : st.cells[j]? = some (some b) := by
+    rw [← hb, ← Array.getElem?_toList, List.getElem?_eq_getElem hj]
+  have := huniq _ _ _ _ _ _ (get_of_cell hS st i a h1) (get_of_cell hS st j b h2) heq
+  have hd := Nat.div_add_mod i S
+  have hd' := Nat.div_add_mod j S
+  rw [this.1, this.2] at hd
+  omega
+
+
+def StoreUniq (S : Nat) (st : Store κ ν) : Prop :=
+  ∀ b s b' s' sl sl', st.get S b s = some sl → st.get S b' s' = some sl' → sl.key = sl'.key → b = b' ∧ s = s'
+
+structure MvInv (c : Cfg κ) (old cur : Store κ ν) (b : Nat) : Prop where
+  hp : cur.hp = old.hp + 1
+  size : cur.cells.size = 2 ^ cur.hp * c.S
+  empty : ∀ b' s, (b ≤ b' ∧ b' < 2 ^ old.hp) ∨ b + 2 ^ old.hp ≤ b' → cur.get c.S b' s = none
+  content : ∀ sl, (∃ b' s, cur.get c.S b' s = some sl) ↔ (∃ b' s, b' < b ∧ old.get c.S b' s = some sl)
+  place : ∀ b' s sl, cur.get c.S b' s = some sl →
+    sl.tag = c.tag sl.key ∧ (b' = c.i1 cur.hp sl.key ∨ b' = c.i2 cur.hp sl.key)
+  uniq : StoreUniq c.S cur
+
+theorem MvInv.step {c : Cfg κ} {old cur : Store κ ν} {b : Nat} (hS : 0 < c.S) (ho : old.WF c)
+    (hu : StoreUniq c.S old) (h : MvInv c old cur b) (hb : b < 2 ^ old.hp) :
+    MvInv c old (moveBucket c old cur b) (b + 1) := by
+  have he1 : ∀ s, cur.get c.S b s = none := fun s => h.empty b s (Or.inl ⟨Nat.le_refl _, hb⟩)
+  have he2 : ∀ s, cur.get c.S (b + 2 ^ old.hp) s = none := fun s => h.empty _ s (Or.inr (Nat.le_refl _))
+  obtain ⟨hp', size', other, cont, plc, unq⟩ := moveBucket_spec c old cur b hS ho h.size h.hp hb he1 he2
+  have unq' := unq (fun s s' sl sl' h1 h2 hk => (hu _ _ _ _ _ _ h1 h2 hk).2)
+  refine ⟨hp'.trans h.hp, by rw [size', hp']; exact h.size, ?_, ?_, ?_, ?_⟩
+  · intro b' s hb'
+    rw [other b' s (by omega) (by omega)]
+    exact h.empty b' s (by omega)
+  · intro sl
+    constructor
+    · rintro ⟨b', s, hg⟩
+      by_cases hin : b' = b ∨ b' = b + 2 ^ old.hp
+      · have : ∃ s, old.get c.S b s = some sl := by
+          apply (cont sl).mpr
+          rcases hin with rfl | rfl
+          · exact ⟨s, Or.inl hg⟩
+          · exact ⟨s, Or.inr hg⟩
+        obtain ⟨s0, hs0⟩ := this
+        exact ⟨b, s0, Nat.lt_succ_self _, hs0⟩
+      · rw [other b' s (fun e => hin (Or.inl e)) (fun e => hin (Or.inr e))] at hg
+        obtain ⟨b'', s'', hlt, hg'⟩ := (h.content sl).mp ⟨b', s, hg⟩
+        exact ⟨b'', s'', Nat.lt_succ_of_lt hlt, hg'⟩
+    · rintro ⟨b'', s'', hlt, hg⟩
+      by_cases hbb : b'' = b
+      · subst hbb
+        obtain ⟨s, hs | hs⟩ := (cont sl).mp ⟨s'', hg⟩
+        · exact ⟨_, s, hs⟩
+        · exact ⟨_, s, hs⟩
+      · obtain ⟨b', s, hg'⟩ := (h.content sl).mpr ⟨b'', s'', by omega, hg⟩
+        refine ⟨b', s, ?_⟩
+        rw [other b' s ?_ ?_]
+        · exact hg'
+        · rintro rfl; rw [he1] at hg'; cases hg'
+        · rintro rfl; rw [he2] at hg'; cases hg'
+  · intro b' s sl hg
+    by_cases hin : b' = b ∨ b' = b + 2 ^ old.hp
+    · rw [hp']; exact plc b' s sl hin hg
+    · rw [other b' s (fun e => hin (Or.inl e)) (fun e => hin (Or.inr e))] at hg
+      rw [hp']; exact h.place b' s sl hg
+  · intro b1 s1 b2 s2 sl sl' h1 h2 hk
+    have cross : ∀ b1 s1 b2 s2 (sl sl' : Slot κ ν), (b1 = b ∨ b1 = b + 2 ^ old.hp) →
+        ¬ (b2 = b ∨ b2 = b + 2 ^ old.hp) →
+        (moveBucket c old cur b).get c.S b1 s1 = some sl → (moveBucket c old cur b).get c.S b2 s2 = some sl' →
+        sl.key = sl'.key → False := by
+      intro b1 s1 b2 s2 sl sl' hin1 hin2 h1 h2 hk
+      have : ∃ s, old.get c.S b s = some sl := by
+        apply (cont sl).mpr
+        rcases hin1 with rfl | rfl
+        · exact ⟨s1, Or.inl h1⟩
+        · exact ⟨s1, Or.inr h1⟩
+      obtain ⟨s0, hs0⟩ := this
+      rw [other b2 s2 (fun e => hin2 (Or.inl e)) (fun e => hin2 (Or.inr e))] at h2
+      obtain ⟨b'', s'', hlt, hg'⟩ := (h.content sl').mp ⟨b2, s2, h2⟩
+      have := (hu _ _ _ _ _ _ hs0 hg' hk).1
+      omega
+    by_cases hin1 : b1 = b ∨ b1 = b + 2 ^ old.hp
+    · by_cases hin2 : b2 = b ∨ b2 = b + 2 ^ old.hp
+      · exact unq' b1 s1 b2 s2 sl sl' hin1 hin2 h1 h2 hk
+      · exact (cross _ _ _ _ _ _ hin1 hin2 h1 h2 hk).elim
+    · by_cases hin2 : b2 = b ∨ b2 = b + 2 ^ old.hp
+      · exact (cross _ _ _ _ _ _ hin2 hin1 h2 h1 hk.symm).elim
+      · rw [other b1 s1 (fun e => hin1 (Or.inl e)) (fun e => hin1 (Or.inr e))] at h1
+        rw [other b2 s2 (fun e => hin2 (Or.inl e)) (fun e => hin2 (Or.inr e))] at h2
+        exact h.uniq _ _ _ _ _ _ h1 h2 hk
+
+theorem MvInv.init (c : Cfg κ) (old : Store κ ν) : MvInv c old (Store.mk' c.S (old.hp + 1)) 0 := by
+  refine ⟨rfl, Store.mk'_size _ _, fun _ _ _ => Store.mk'_get _ _ _ _, ?_, ?_, ?_⟩
+  · intro sl
+    constructor
+    · rintro ⟨b, s, h⟩; rw [Store.mk'_get] at h; cases h
+    · rintro ⟨_, _, h, _⟩; omega
+  · intro b s sl h; rw [Store.mk'_get] at h; cases h
+  · intro b s b' s' sl sl' h; rw [Store.mk'_get] at h; cases h
+
+theorem mv_spec [DecidableEq κ] {c : Cfg κ} {old : Store κ ν} (hS : 0 < c.S) (ho : old.WF c) (hu : StoreUniq c.S old) :
+    ∀ (n b : Nat) (cur : Store κ ν), b + n = 2 ^ old.hp → MvInv c old cur b →
+      MvInv c old (fastDouble.mv c old n b cur) (2 ^ old.hp) := by
+  intro n
+  induction n with
+  | zero => intro b cur hb h; simp only [fastDouble.mv]; rw [← hb]; exact h
+  | succ n ih =>
+    intro b cur hb h
+    simp only [fastDouble.mv]
+    exact ih (b + 1) _ (by omega) (h.step hS ho hu (by omega))
+
+
+
+theorem mrl_size (c : Cfg κ) (t : Table κ ν) (a : Nat) (hM : ∃ m, c.M = 2 ^ m)
+    (hp : ∃ j, t.locks.size = 2 ^ j) (hle : t.locks.size ≤ c.M) :
+    (∃ j, (t.maybeResizeLocks c (2 ^ a)).locks.size = 2 ^ j) ∧
+    (t.maybeResizeLocks c (2 ^ a)).locks.size ≤ c.M ∧
+    min (2 ^ a) c.M ≤ (t.maybeResizeLocks c (2 ^ a)).locks.size := by
+  unfold Table.maybeResizeLocks
+  split
+  · rename_i hc
+    have e : (t.locks ++ Array.replicate (min c.M (2 ^ a) - t.locks.size) (⟨0, true⟩ : Lock)).size
+        = min c.M (2 ^ a) := by
+      simp only [Array.size_append, Array.size_replicate]; omega
+    simp only [e]
+    refine ⟨?_, by omega, by omega⟩
+    obtain ⟨m, hm⟩ := hM
+    exact ⟨min m a, by rw [hm, min_two_pow]⟩
+  · rename_i hc
+    exact ⟨hp, hle, by omega⟩
+
+theorem inv_curUniq {c : Cfg κ} {t : Table κ ν} (h : Inv c t) : StoreUniq c.S t.cur := by
+  intro b s b' s' sl sl' h1 h2 hk
+  have := h.uniq (.cur b s) (.cur b' s') sl sl' h1 h2 hk
+  cases this
+  exact ⟨rfl, rfl⟩
+
+theorem double_now [DecidableEq κ] {c : Cfg κ} {t1 t' : Table κ ν} (h1 : Inv c t1) (ha : AllMig t1)
+    (hlim : t1.mhp = noMaxHp ∨ t1.hp + 1 ≤ t1.mhp)
+    (hcur : t'.cur = fastDouble.mv c t1.cur (2 ^ t1.cur.hp) 0 (Store.mk' c.S (t1.cur.hp + 1)))
+    (hold : t'.old = none) (hlocks : t'.locks = (t1.maybeResizeLocks c (2 ^ (t1.hp + 1))).locks)
+    (hrem : t'.rem = 0)
+    (hmlf : t'.mlf = t1.mlf) (hmhp : t'.mhp = t1.mhp) (hw : t'.workers = t1.workers) :
+    Inv c t' ∧ Same c t1 t' ∧ AllMig t' := by
+  have hspec := maybeResizeLocks_spec' c t1 (2 ^ (t1.hp + 1))
+  have ha' : AllMig t' := by
+    intro i lk hlk
+    rw [hlocks] at hlk
+    exact hspec.2.2.2.2.2.2.2.2.1 ha i lk hlk
+  have mvi := mv_spec h1.S_pos h1.cur_wf (inv_curUniq h1) (2 ^ t1.cur.hp) 0 _ (by omega) (MvInv.init c t1.cur)
+  rw [← hcur] at mvi
+  have hsz := mrl_size c t1 (t1.hp + 1) h1.M_pow h1.locks_pow h1.locks_le
+  rw [← hlocks] at hsz
+  have hhp : t'.hp = t1.hp + 1 := mvi.hp
+  refine ⟨⟨h1.S_pos, h1.M_pow, ⟨mvi.size, mvi.place⟩, hsz.1, hsz.2.1, ?_, ?_, ?_, ?_, ?_, ?_⟩, ⟨?_, ?_, hmlf, hmhp, hw⟩, ha'⟩
+  · rw [hhp]; exact hsz.2.2
+  · rw [hrem, allMig_nUnmig ha']
+  · intro h; rw [hrem] at h; omega
+  · intro b s h; rw [ha'.unmigB] at h; cases h
+  · intro p p' sl sl' hp hp' hk
+    cases p with
+    | old b s => simp only [Table.at, hold] at hp; cases hp
+    | cur b s =>
+      cases p' with
+      | old b s => simp only [Table.at, hold] at hp'; cases hp'
+      | cur b' s' =>
+        have := mvi.uniq _ _ _ _ _ _ hp hp' hk
+        rw [this.1, this.2]
+  · rw [hmhp, hhp]; exact hlim
+  · intro sl
+    rw [live_iff_cur (fun b => ha'.unmigB b), live_iff_cur (fun b => ha.unmigB b), mvi.content]
+    constructor
+    · rintro ⟨b, s, _, h⟩; exact ⟨b, s, h⟩
+    · rintro ⟨b, s, h⟩; exact ⟨b, s, Store.get_some_bucket_lt h1.cur_wf.size h, h⟩
+  · unfold Table.sumCnt; rw [hlocks]; exact hspec.2.2.2.2.2.2.2.1
+
+
+theorem mrl_noop (c : Cfg κ) (t : Table κ ν) (n : Nat) (h : c.M ≤ t.locks.size) :
+    t.maybeResizeLocks c n = t := by
+  unfold Table.maybeResizeLocks
+  rw [if_neg]; omega
+
+theorem double_lazy {c : Cfg κ} {t1 t' : Table κ ν} (h1 : Inv c t1) (ha : AllMig t1)
+    (hge : c.M ≤ 2 ^ t1.hp)
+    (hlim : t1.mhp = noMaxHp ∨ t1.hp + 1 ≤ t1.mhp)
+    (hcur : t'.cur = Store.mk' c.S (t1.hp + 1))
+    (hold : t'.old = some t1.cur)
+    (hlocks : t'.locks = t1.locks.map (fun l => ({ l with migrated := false } : Lock)))
+    (hrem : t'.rem = t1.locks.size)
+    (hmlf : t'.mlf = t1.mlf) (hmhp : t'.mhp = t1.mhp) (hw : t'.workers = t1.workers) :
+    Inv c t' ∧ Same c t1 t' := by
+  have hsz : t1.locks.size = c.M := by
+    have := h1.locks_ge; have := h1.locks_le; omega
+  have hsz' : t'.locks.size = c.M := by rw [hlocks, Array.size_map, hsz]
+  have hMpos : 0 < c.M := by obtain ⟨m, hm⟩ := h1.M_pow; rw [hm]; exact Spec.two_pow_pos m
+  have hhp : t'.hp = t1.hp + 1 := by unfold Table.hp; rw [hcur]; rfl
+  have hun : ∀ b, t'.unmigB c b = true := by
+    intro b
+    unfold Table.unmigB
+    have hlt : c.lockInd b < t1.locks.size := by rw [hsz]; exact Spec.lockInd_lt _ _ hMpos
+    rw [hlocks, Array.getElem?_map, Array.getElem?_eq_getElem hlt]
+    rfl
+  have hget : ∀ b s, t'.cur.get c.S b s = none := by
+    intro b s; rw [hcur]; exact Store.mk'_get _ _ _ _
+  have hat : ∀ b s, t'.at c (.old b s) = t1.cur.get c.S b s := by
+    intro b s; simp only [Table.at, hold, hun b, ↓reduceIte]
+  refine ⟨⟨h1.S_pos, h1.M_pow, by rw [hcur]; exact Store.mk'_wf c _, by rw [hsz']; exact h1.M_pow,
+    by omega, by omega, ?_, ?_, ?_, ?_, ?_⟩, ⟨?_, ?_, hmlf, hmhp, hw⟩⟩
+  · rw [hrem]; unfold Table.nUnmig; rw [hlocks, nUnmig_map_false]
+  · intro _
+    exact ⟨t1.cur, hold, h1.cur_wf, by rw [hhp]; rfl, hge, hsz'⟩
+  · intro b s _; exact hget b s
+  · intro p p' sl sl' hp hp' hk
+    cases p with
+    | cur b s => simp only [Table.at, hget] at hp; cases hp
+    | old b s =>
+      cases p' with
+      | cur b s => simp only [Table.at, hget] at hp'; cases hp'
+      | old b' s' =>
+        rw [hat] at hp hp'
+        have := (inv_curUniq h1) _ _ _ _ _ _ hp hp' hk
+        rw [this.1, this.2]
+  · rw [hmhp, hhp]; exact hlim
+  · intro sl
+    rw [live_iff_cur (fun b => ha.unmigB b)]
+    constructor
+    · rintro ⟨p, hp⟩
+      cases p with
+      | cur b s => simp only [Table.at, hget] at hp; cases hp
+      | old b s => rw [hat] at hp; exact ⟨b, s, hp⟩
+    · rintro ⟨b, s, h⟩
+      exact ⟨.old b s, by rw [hat]; exact h⟩
+  · unfold Table.sumCnt; rw [hlocks]; exact foldl_cnt_map t1.locks (fun l => ({ l with migrated := false } : Lock)) (fun _ => rfl) 0
+
+
+
+theorem checkResize_some {c : Cfg κ} {t : Table κ ν} {auto : Bool} {n : Nat} {e : Err}
+    (h : t.checkResize c auto n = some e) : ResizeErr e := by
+  unfold Table.checkResize at h
+  split at h
+  · cases h; exact Or.inr (Or.inl rfl)
+  · split at h
+    · cases h; exact Or.inl rfl
+    · cases h
+
+theorem checkResize_none {c : Cfg κ} {t : Table κ ν} {auto : Bool} {n : Nat}
+    (h : t.checkResize c auto n = none) : t.mhp = noMaxHp ∨ n ≤ t.mhp := by
+  unfold Table.checkResize at h
+  split at h
+  · cases h
+  · rename_i hc
+    by_cases hm : t.mhp = noMaxHp
+    · exact Or.inl hm
+    · right; apply Nat.le_of_not_lt; intro hlt; exact hc ⟨hm, hlt⟩
+
+theorem fields_irrel {c : Cfg κ} {t t' : Table κ ν} (hcur : t'.cur = t.cur) (hold : t'.old = t.old)
+    (hlocks : t'.locks = t.locks) (hrem : t'.rem = t.rem) (hmlf : t'.mlf = t.mlf) (hmhp : t'.mhp = t.mhp)
+    (hw : t'.workers = t.workers) :
+    (Inv c t → Inv c t') ∧ Same c t t' ∧ (AllMig t → AllMig t') := by
+  obtain ⟨a1, a2, a3, a4, a5, a6, a7, a8, a9⟩ := t
+  obtain ⟨b1, b2, b3, b4, b5, b6, b7, b8, b9⟩ := t'
+  simp only at hcur hold hlocks hrem hmlf hmhp hw
+  subst hcur hold hlocks hrem hmlf hmhp hw
+  refine ⟨fun h => ⟨h.S_pos, h.M_pow, h.cur_wf, h.locks_pow, h.locks_le, h.locks_ge, h.rem_eq, h.pending,
+    h.unmig_empty, h.uniq, h.limit⟩, ⟨fun sl => Iff.rfl, rfl, rfl, rfl, rfl⟩, fun h => h⟩
+
+def PIns [DecidableEq κ] (c : Cfg κ) (ν : Type) (fuel : Nat) : Prop :=
+  ∀ (locked : Bool) (t : Table κ ν) (k : κ), Inv c t → (locked = true → AllMig t) →
+    Inv c (insertLoop c locked fuel t k).1 ∧ Same c t (insertLoop c locked fuel t k).1 ∧
+    (locked = true → AllMig (insertLoop c locked fuel t k).1) ∧
+    match (insertLoop c locked fuel t k).2 with
+    | .ok p => InsOK c (insertLoop c locked fuel t k).1 k p
+    | .err e => ResizeErr e
+
+def PDbl [DecidableEq κ] (c : Cfg κ) (ν : Type) (fuel : Nat) : Prop :=
+  ∀ (locked auto : Bool) (t : Table κ ν) (curHp : Nat), Inv c t → (locked = true → AllMig t) →
+    Inv c (fastDouble c locked auto fuel t curHp).1 ∧ Same c t (fastDouble c locked auto fuel t curHp).1 ∧
+    (locked = true → AllMig (fastDouble c locked auto fuel t curHp).1) ∧
+    match (fastDouble c locked auto fuel t curHp).2 with
+    | .ok _ => True
+    | .err e => ResizeErr e
+
+def PExp [DecidableEq κ] (c : Cfg κ) (ν : Type) (fuel : Nat) : Prop :=
+  ∀ (locked auto : Bool) (t : Table κ ν) (newHp : Nat), Inv c t → (locked = true → AllMig t) →
+    Inv c (expandSimple c locked auto fuel t newHp).1 ∧ Same c t (expandSimple c locked auto fuel t newHp).1 ∧
+    (locked = true → AllMig (expandSimple c locked auto fuel t newHp).1) ∧
+    match (expandSimple c locked auto fuel t newHp).2 with
+    | .ok _ => AllMig (expandSimple c locked auto fuel t newHp).1
+    | .err e => ResizeErr e
+
+
+def bumpRc (t : Table κ ν) : Table κ ν := { t with rc := t.rc + 1 }
+
+theorem bumpRc_spec (c : Cfg κ) (t : Table κ ν) :
+    (Inv c t → Inv c (bumpRc t)) ∧ Same c t (bumpRc t) ∧ (AllMig t → AllMig (bumpRc t)) :=
+  fields_irrel rfl rfl rfl rfl rfl rfl rfl
+
+def doubleCore [DecidableEq κ] (c : Cfg κ) (locked : Bool) (t1 : Table κ ν) (newHp : Nat) : Table κ ν :=
+  let t := t1.maybeResizeLocks c (2 ^ newHp)
+  let old := t.cur
+  let t := { t with old := some old, cur := Store.mk' c.S newHp }
+  if 2 ^ old.hp < c.M then
+    ({ t with cur := fastDouble.mv c old (2 ^ old.hp) 0 t.cur }).setRem 0
+  else
+    let t := { t with locks := t.locks.map (fun l => { l with migrated := false }), rem := t.locks.size }
+    if locked then t.migrateAll c else t
+
+theorem doubleCore_spec [DecidableEq κ] (c : Cfg κ) (locked : Bool) (t1 : Table κ ν) (newHp : Nat)
+    (h1 : Inv c t1) (ha : AllMig t1) (hn : newHp = t1.hp + 1)
+    (hlim : t1.mhp = noMaxHp ∨ t1.hp + 1 ≤ t1.mhp) :
+    Inv c (doubleCore c locked t1 newHp) ∧ Same c t1 (doubleCore c locked t1 newHp) ∧
+    (locked = true → AllMig (doubleCore c locked t1 newHp)) := by
+  subst hn
+  have hc := (maybeResizeLocks_spec' c t1 (2 ^ (t1.hp + 1)))
+  unfold doubleCore
+  dsimp only
+  by_cases hlt : 2 ^ t1.hp < c.M
+  · rw [if_pos (by rw [hc.1]; exact hlt)]
+    have := double_now h1 ha hlim (t' := ({ (t1.maybeResizeLocks c (2 ^ (t1.hp + 1))) with
+                old := some (t1.maybeResizeLocks c (2 ^ (t1.hp + 1))).cur,
+                cur := fastDouble.mv c (t1.maybeResizeLocks c (2 ^ (t1.hp + 1))).cur
+                  (2 ^ (t1.maybeResizeLocks c (2 ^ (t1.hp + 1))).cur.hp) 0 (Store.mk' c.S (t1.hp + 1)) } : Table κ ν).setRem 0)
+       (by
+         show fastDouble.mv c (t1.maybeResizeLocks c (2 ^ (t1.hp + 1))).cur
+                  (2 ^ (t1.maybeResizeLocks c (2 ^ (t1.hp + 1))).cur.hp) 0 (Store.mk' c.S (t1.hp + 1)) = _
+         rw [hc.1]; rfl) rfl rfl rfl hc.2.2.2.2.1 hc.2.2.2.2.2.1 hc.2.2.2.2.2.2.1
+    exact ⟨this.1, this.2.1, fun _ => this.2.2⟩
+  · have hge : c.M ≤ 2 ^ t1.hp := Nat.le_of_not_lt hlt
+    have hsz : c.M ≤ t1.locks.size := by have := h1.locks_ge; omega
+    rw [mrl_noop c t1 _ hsz]
+    rw [if_neg (show ¬ 2 ^ t1.cur.hp < c.M from hlt)]
+    have := double_lazy h1 ha hge hlim (t' := { t1 with old := some t1.cur, cur := Store.mk' c.S (t1.hp + 1), locks := t1.locks.map (fun l => ({ l with migrated := false } : Lock)), rem := t1.locks.size })
+        rfl rfl rfl rfl rfl rfl rfl
+    split
+    · obtain ⟨m1, m2, _, _, m5, _⟩ := migrateAll_spec c _ this.1
+      exact ⟨m1, this.2.trans m2, fun _ => m5⟩
+    · rename_i hl
+      exact ⟨this.1, this.2, fun h => absurd h hl⟩
+
+theorem fastDouble_step [DecidableEq κ] (c : Cfg κ) (fuel : Nat) (hE : PExp c ν fuel) : PDbl c ν (fuel + 1) := by
+  intro locked auto t curHp h hl
+  rw [fastDouble.eq_2]
+  split
+  · have := hE locked auto t (curHp + 1) h hl
+    refine ⟨this.1, this.2.1, this.2.2.1, ?_⟩
+    have h4 := this.2.2.2
+    generalize (expandSimple c locked auto fuel t (curHp + 1)).2 = r at h4 ⊢
+    cases r
+    · trivial
+    · exact h4
+  · dsimp only
+    split
+    · rename_i e he
+      exact ⟨h, Same.refl c t, hl, checkResize_some he⟩
+    · rename_i hnone
+      split
+      · exact ⟨h, Same.refl c t, hl, trivial⟩
+      · rename_i hhp
+        have hhp : curHp = t.hp := by
+          apply Classical.byContradiction; intro hne; exact hhp (fun e => hne e.symm)
+        subst hhp
+        obtain ⟨m1, m2, m3, m4, m5, m6, m7, m8, m9⟩ := migrateAll_spec c t h
+        split
+        · exact ⟨m1, m2, fun _ => m5, Or.inr (Or.inr (Or.inl rfl))⟩
+        · show Inv c (bumpRc (doubleCore c locked (t.migrateAll c) (t.hp + 1))) ∧
+            Same c t (bumpRc (doubleCore c locked (t.migrateAll c) (t.hp + 1))) ∧
+            (locked = true → AllMig (bumpRc (doubleCore c locked (t.migrateAll c) (t.hp + 1)))) ∧ True
+          have hlim : (t.migrateAll c).mhp = noMaxHp ∨ (t.migrateAll c).hp + 1 ≤ (t.migrateAll c).mhp := by
+            rw [m2.mhp, m3]; exact checkResize_none hnone
+          obtain ⟨d1, d2, d3⟩ := doubleCore_spec c locked (t.migrateAll c) (t.hp + 1) m1 m5 (by rw [m3]) hlim
+          obtain ⟨r1, r2, r3⟩ := bumpRc_spec c (doubleCore c locked (t.migrateAll c) (t.hp + 1))
+          exact ⟨r1 d1, (m2.trans d2).trans r2, fun hh => r3 (d3 hh), trivial⟩
+
+
+
+
+theorem i1_lt (c : Cfg κ) (hp : Nat) (k : κ) : c.i1 hp k < 2 ^ hp := Spec.indexHash_lt _ _
+theorem i2_lt (c : Cfg κ) (hp : Nat) (k : κ) : c.i2 hp k < 2 ^ hp := Spec.altIndex_lt _ _ _
+
+theorem insertLoop_step [DecidableEq κ] (c : Cfg κ) (fuel : Nat) (hI : PIns c ν fuel) (hD : PDbl c ν fuel) :
+    PIns c ν (fuel + 1) := by
+  intro locked t k h hl
+  rw [insertLoop.eq_2]
+  obtain ⟨l1, l2, l3, l4, l5⟩ := lockTwoM_spec c locked t (c.i1 t.hp k) (c.i2 t.hp k) h hl
+  generalize t.lockTwoM c locked (c.i1 t.hp k) (c.i2 t.hp k) = t1 at *
+  have hhp : t1.hp = t.hp := l3.hp
+  have hl1 : locked = true → AllMig t1 := fun hh => l3.allmig (hl hh)
+  have ts := tryInsert_spec c t1 k l1 (by rw [hhp]; exact l4) (by rw [hhp]; exact l5)
+  rw [hhp] at ts
+  split
+  · rename_i p hp
+    rw [hp] at ts
+    exact ⟨l1, l2, hl1, ts⟩
+  · rename_i hnc
+    rw [hnc] at ts
+    have rs := runCuckoo_spec c locked t1 (c.i1 t.hp k) (c.i2 t.hp k) l1 hl1
+      (by rw [hhp]; exact i1_lt c _ k) (by rw [hhp]; exact i2_lt c _ k)
+    split
+    · rename_i t2 b s heq
+      rw [heq] at rs
+      obtain ⟨r1, r2, r3, r4, r5, r6, r7, r8⟩ := rs
+      dsimp only at r1 r2 r3 r4 r5 r6 r7 r8
+      have hhp2 : t2.hp = t.hp := r3.hp.trans hhp
+      have hl2 : locked = true → AllMig t2 := fun hh => r3.allmig (hl1 hh)
+      have cf := cuckooFind_spec c t2 k r1 (by rw [hhp2]; exact r7) (by rw [hhp2]; exact r8)
+      rw [hhp2] at cf
+      split
+      · rename_i b' s' hf
+        rw [hf] at cf
+        obtain ⟨sl, hsl, hk, _⟩ := cf
+        exact ⟨r1, l2.trans r2, hl2, sl, hsl, hk⟩
+      · rename_i hf
+        rw [hf] at cf
+        refine ⟨r1, l2.trans r2, hl2, ?_, r5, r6, ?_, cf⟩
+        · rw [hhp2]; exact r4
+        · rcases r4 with rfl | rfl
+          · exact r7
+          · exact r8
+    · rename_i t2 heq
+      rw [heq] at rs
+      exact ⟨rs.1, l2.trans rs.2.1, fun hh => rs.2.2.1.allmig (hl1 hh), Or.inr (Or.inr (Or.inr rfl))⟩
+    · rename_i t2 heq
+      rw [heq] at rs
+      obtain ⟨r1, r2, r3, _⟩ := rs
+      dsimp only at r1 r2 r3
+      have hl2 : locked = true → AllMig t2 := fun hh => r3.allmig (hl1 hh)
+      have ds := hD locked true t2 t.hp r1 hl2
+      split
+      · rename_i t3 e heq3
+        rw [heq3] at ds
+        exact ⟨ds.1, (l2.trans r2).trans ds.2.1, ds.2.2.1, ds.2.2.2⟩
+      · rename_i t3 a heq3
+        rw [heq3] at ds
+        obtain ⟨d1, d2, d3, _⟩ := ds
+        dsimp only at d1 d2 d3
+        have is := hI locked t3 k d1 d3
+        exact ⟨is.1, ((l2.trans r2).trans d2).trans is.2.1, is.2.2.1, is.2.2.2⟩
+
+theorem insertLoop_zero [DecidableEq κ] (c : Cfg κ) : PIns c ν 0 := by
+  intro locked t k h hl
+  rw [insertLoop.eq_1]
+  exact ⟨h, Same.refl c t, hl, Or.inr (Or.inr (Or.inr rfl))⟩
+
+theorem fastDouble_zero [DecidableEq κ] (c : Cfg κ) : PDbl c ν 0 := by
+  intro locked auto t n h hl
+  rw [fastDouble.eq_1]
+  exact ⟨h, Same.refl c t, hl, Or.inr (Or.inr (Or.inr rfl))⟩
+
+theorem expandSimple_zero [DecidableEq κ] (c : Cfg κ) : PExp c ν 0 := by
+  intro locked auto t n h hl
+  rw [expandSimple.eq_1]
+  exact ⟨h, Same.refl c t, hl, Or.inr (Or.inr (Or.inr rfl))⟩
+
+
+theorem init_spec (c : Cfg κ) (n w : Nat) (f : Float) (mh : Nat) (hS : 0 < c.S) (hM : ∃ m, c.M = 2 ^ m)
+    (hlim : mh = noMaxHp ∨ Spec.reserveCalc c.S n ≤ mh) (nm : Table κ ν)
+    (hnm : nm = { (Table.init c n : Table κ ν) with workers := w, mlf := f, mhp := mh }) :
+    Inv c nm ∧ AllMig nm ∧ (∀ sl, ¬ nm.Live c sl) ∧ nm.mhp = mh := by
+  subst hnm
+  have ha : AllMig ({ (Table.init c n : Table κ ν) with workers := w, mlf := f, mhp := mh }) := by
+    intro i lk hlk
+    simp only [Table.init, Array.getElem?_replicate] at hlk
+    split at hlk
+    · cases hlk; rfl
+    · cases hlk
+  have hnl : ∀ p, ({ (Table.init c n : Table κ ν) with workers := w, mlf := f, mhp := mh }).at c p = none := by
+    intro p
+    cases p with
+    | cur b s => exact Store.mk'_get _ _ _ _
+    | old b s =>
+      simp only [Table.at, Table.init, Store.mk'_get, ite_self]
+  refine ⟨⟨hS, hM, Store.mk'_wf c _, ?_, ?_, ?_, ?_, ?_, ?_, ?_, hlim⟩, ha, ?_, rfl⟩
+  · obtain ⟨m, hm⟩ := hM
+    refine ⟨min (Spec.reserveCalc c.S n) m, ?_⟩
+    simp only [Table.init, Array.size_replicate, hm, min_two_pow]
+  · simp only [Table.init, Array.size_replicate]; exact Nat.min_le_right _ _
+  · simp only [Table.init, Array.size_replicate, Table.hp, Store.mk'_hp]; exact Nat.le_refl _
+  · rw [allMig_nUnmig ha]; rfl
+  · intro h; exact absurd h (Nat.lt_irrefl 0)
+  · intro b s _; exact Store.mk'_get _ _ _ _
+  · intro p p' sl sl' hp; rw [hnl] at hp; cases hp
+  · rintro sl ⟨p, hp⟩; rw [hnl] at hp; cases hp
+
+
+theorem foldl_rebuild_err (c : Cfg κ) (ins : Table κ ν → κ → Table κ ν × Res InsPos) (L : List (Slot κ ν))
+    (nm : Table κ ν) (e : Err) :
+    L.foldl (rebuildStep c ins) (nm, .err e) = (nm, .err e) := by
+  induction L with
+  | nil => rfl
+  | cons a L ih => rw [List.foldl_cons]; exact ih
+
+theorem rebuildStep_ok (c : Cfg κ) (ins : Table κ ν → κ → Table κ ν × Res InsPos) (nm : Table κ ν)
+    (sl : Slot κ ν) :
+    rebuildStep c ins (nm, .ok ()) sl =
+      match ins nm sl.key with
+      | (nm, .err e) => (nm, .err e)
+      | (nm, .ok (.dup _ _)) => (nm, .ok ())
+      | (nm, .ok (.free b s)) => (nm.addTo c b s ⟨c.tag sl.key, sl.key, sl.val⟩, .ok ()) := rfl
+
+theorem foldl_rebuild [DecidableEq κ] (c : Cfg κ) (fuel : Nat) (hI : PIns c ν fuel) :
+    ∀ (L : List (Slot κ ν)) (nm : Table κ ν), Inv c nm →
+    (∀ sl ∈ L, sl.tag = c.tag sl.key) → L.Pairwise (fun a b => a.key ≠ b.key) →
+    (∀ sl ∈ L, ∀ tag v, ¬ nm.Live c ⟨tag, sl.key, v⟩) →
+    Inv c (L.foldl (rebuildStep c (insertLoop c false fuel)) (nm, .ok ())).1 ∧
+    (L.foldl (rebuildStep c (insertLoop c false fuel)) (nm, .ok ())).1.mhp = nm.mhp ∧
+    match (L.foldl (rebuildStep c (insertLoop c false fuel)) (nm, .ok ())).2 with
+    | .err e => ResizeErr e
+    | .ok _ => ∀ sl, (L.foldl (rebuildStep c (insertLoop c false fuel)) (nm, .ok ())).1.Live c sl ↔
+        (nm.Live c sl ∨ sl ∈ L) := by
+  intro L
+  induction L with
+  | nil =>
+    intro nm h _ _ _
+    exact ⟨h, rfl, fun sl => by simp⟩
+  | cons a L ih =>
+    intro nm h htag hpw hfresh
+    rw [List.foldl_cons]
+    have is := hI false nm a.key h (by intro hh; cases hh)
+    rw [rebuildStep_ok]
+    generalize insertLoop c false fuel nm a.key = r at is ⊢
+    obtain ⟨nm1, res⟩ := r
+    cases res with
+    | err e =>
+      dsimp only
+      rw [foldl_rebuild_err]
+      exact ⟨is.1, is.2.1.mhp, is.2.2.2⟩
+    | ok p =>
+      obtain ⟨i1, i2, _, i4⟩ := is
+      dsimp only at i1 i2 i4
+      cases p with
+      | dup b s =>
+        obtain ⟨sl', hsl', hk⟩ := i4
+        have : nm.Live c sl' := (i2.live sl').mp ⟨.cur b s, hsl'⟩
+        exfalso
+        apply hfresh a (List.mem_cons_self) sl'.tag sl'.val
+        rw [← hk]; exact this
+      | free b s =>
+        obtain ⟨hb, hs, hempty, hmig, hnl⟩ := i4
+        obtain ⟨a1, a2, _, _, _, a6, _⟩ := addTo_spec c nm1 b s a.key a.val i1 hb hs hempty hmig hnl
+        have ha : (⟨c.tag a.key, a.key, a.val⟩ : Slot κ ν) = a := by
+          rw [← htag a List.mem_cons_self]
+        dsimp only
+        rw [ha] at a1 a2 a6 ⊢
+        have hpw' := List.pairwise_cons.mp hpw
+        have := ih (nm1.addTo c b s a) a1 (fun sl hsl => htag sl (List.mem_cons_of_mem _ hsl)) hpw'.2 ?_
+        · refine ⟨this.1, this.2.1.trans (a6.trans i2.mhp), ?_⟩
+          have h3 := this.2.2
+          generalize (List.foldl (rebuildStep c (insertLoop c false fuel)) (nm1.addTo c b s a, Res.ok ()) L) = r at h3 ⊢
+          obtain ⟨nmf, resf⟩ := r
+          cases resf with
+          | err e => exact h3
+          | ok u =>
+            dsimp only at h3 ⊢
+            intro sl
+            rw [h3 sl, a2 sl, i2.live sl, List.mem_cons]
+            constructor
+            · rintro ((h | h) | h)
+              · exact Or.inl h
+              · exact Or.inr (Or.inl h)
+              · exact Or.inr (Or.inr h)
+            · rintro (h | h | h)
+              · exact Or.inl (Or.inl h)
+              · exact Or.inl (Or.inr h)
+              · exact Or.inr h
+        · intro sl hsl tag v hlive
+          rcases (a2 _).mp hlive with h1 | h1
+          · exact hfresh sl (List.mem_cons_of_mem _ hsl) tag v ((i2.live _).mp h1)
+          · have : sl.key = a.key := by rw [← h1]
+            exact hpw'.1 sl hsl this.symm
+
+
+theorem rebuild_final {c : Cfg κ} {t1 nm2 t' : Table κ ν} (h1 : Inv c t1) (ha : AllMig t1)
+    (hn : Inv c nm2) (hna : AllMig nm2) (hnmhp : nm2.mhp = t1.mhp)
+    (hlive : ∀ sl, nm2.Live c sl ↔ t1.Live c sl)
+    (hcur : t'.cur = nm2.cur) (hold : t'.old = none)
+    (hlocks : t'.locks = (t1.maybeResizeLocks c (2 ^ nm2.hp)).locks) (hrem : t'.rem = 0)
+    (hmlf : t'.mlf = t1.mlf) (hmhp : t'.mhp = t1.mhp) (hw : t'.workers = t1.workers) :
+    Inv c t' ∧ Same c t1 t' ∧ AllMig t' := by
+  have hspec := maybeResizeLocks_spec' c t1 (2 ^ nm2.hp)
+  have ha' : AllMig t' := by
+    intro i lk hlk
+    rw [hlocks] at hlk
+    exact hspec.2.2.2.2.2.2.2.2.1 ha i lk hlk
+  have hsz := mrl_size c t1 nm2.hp h1.M_pow h1.locks_pow h1.locks_le
+  rw [← hlocks] at hsz
+  have hhp : t'.hp = nm2.hp := by unfold Table.hp; rw [hcur]
+  have hwf := hn.cur_wf
+  rw [← hcur] at hwf
+  refine ⟨⟨h1.S_pos, h1.M_pow, hwf, hsz.1, hsz.2.1, ?_, ?_, ?_, ?_, ?_, ?_⟩, ⟨?_, ?_, hmlf, hmhp, hw⟩, ha'⟩
+  · rw [hhp]; exact hsz.2.2
+  · rw [hrem, allMig_nUnmig ha']
+  · intro h; rw [hrem] at h; omega
+  · intro b s h; rw [ha'.unmigB] at h; cases h
+  · intro p p' sl sl' hp hp' hk
+    cases p with
+    | old b s => simp only [Table.at, hold] at hp; cases hp
+    | cur b s =>
+      cases p' with
+      | old b s => simp only [Table.at, hold] at hp'; cases hp'
+      | cur b' s' =>
+        simp only [Table.at, hcur] at hp hp'
+        have := (inv_curUniq hn) _ _ _ _ _ _ hp hp' hk
+        rw [this.1, this.2]
+  · rw [hmhp, hhp, ← hnmhp]; exact hn.limit
+  · intro sl
+    rw [← hlive sl, live_iff_cur (fun b => ha'.unmigB b), live_iff_cur (fun b => hna.unmigB b), hcur]
+  · unfold Table.sumCnt; rw [hlocks]; exact hspec.2.2.2.2.2.2.2.1
+
+
+
+theorem reserveCalc_le (S n : Nat) (hS : 0 < S) : Spec.reserveCalc S (2 ^ n * S) ≤ n := by
+  apply Nat.le_of_not_lt
+  intro hlt
+  have := Spec.reserveCalc_minimal S (2 ^ n * S) n hS hlt
+  omega
+
+theorem expandSimple_step [DecidableEq κ] (c : Cfg κ) (fuel : Nat) (hI : PIns c ν fuel) : PExp c ν (fuel + 1) := by
+  intro locked auto t newHp h hl
+  rw [expandSimple.eq_2]
+  split
+  · rename_i e he
+    exact ⟨h, Same.refl c t, hl, checkResize_some he⟩
+  · rename_i hnone
+    obtain ⟨m1, m2, m3, m4, m5, m6, m7, m8, m9⟩ := migrateAll_spec c t h
+    dsimp only
+    split
+    · exact ⟨m1, m2, fun _ => m5, Or.inr (Or.inr (Or.inl rfl))⟩
+    · have hlim0 := checkResize_none hnone
+      have hlim : (t.migrateAll c).mhp = noMaxHp ∨ Spec.reserveCalc c.S (2 ^ newHp * c.S) ≤ (t.migrateAll c).mhp := by
+        rw [m2.mhp]
+        rcases hlim0 with h0 | h0
+        · exact Or.inl h0
+        · exact Or.inr (Nat.le_trans (reserveCalc_le _ _ h.S_pos) h0)
+      obtain ⟨n1, n2, n3, n4⟩ := init_spec c (2 ^ newHp * c.S) (t.migrateAll c).workers
+        (if auto = true then (t.migrateAll c).mlf else 0.0) (t.migrateAll c).mhp h.S_pos h.M_pow hlim _ rfl
+      have fr := foldl_rebuild c fuel hI (t.migrateAll c).cur.elems _ n1
+        (fun sl hsl => by
+          obtain ⟨b, s, hg⟩ := (mem_elems h.S_pos _ sl).mp hsl
+          exact (m1.cur_wf.place b s sl hg).1)
+        (elems_pairwise h.S_pos _ (inv_curUniq m1))
+        (fun sl _ tag v hl => n3 _ hl)
+      dsimp only at fr n2 n4
+      split
+      · rename_i nmf e heq
+        rw [heq] at fr
+        exact ⟨m1, m2, fun _ => m5, fr.2.2⟩
+      · rename_i nmf a heq
+        rw [heq] at fr
+        obtain ⟨f1, f2, f3⟩ := fr
+        dsimp only at f1 f2 f3
+        obtain ⟨k1, k2, k3, k4, k5, k6, k7, k8, k9⟩ := migrateAll_spec c nmf f1
+        have hc := maybeResizeLocks_spec' c (t.migrateAll c) (2 ^ (nmf.migrateAll c).hp)
+        have hlive : ∀ sl, (nmf.migrateAll c).Live c sl ↔ (t.migrateAll c).Live c sl := by
+          intro sl
+          rw [k2.live sl, f3 sl, live_iff_cur (fun b => m5.unmigB b), mem_elems h.S_pos]
+          constructor
+          · rintro (h0 | h0)
+            · exact absurd h0 (n3 sl)
+            · exact h0
+          · exact Or.inr
+        obtain ⟨g1, g2, g3⟩ := rebuild_final (c := c) (t1 := t.migrateAll c) (nm2 := nmf.migrateAll c)
+          (t' := { (t.migrateAll c).maybeResizeLocks c (2 ^ (nmf.migrateAll c).hp) with
+                     cur := (nmf.migrateAll c).cur })
+          m1 m5 k1 k5 (k2.mhp.trans (f2.trans n4)) hlive rfl (hc.2.1.trans m7) rfl (hc.2.2.1.trans m6)
+          hc.2.2.2.2.1 hc.2.2.2.2.2.1 hc.2.2.2.2.2.2.1
+        obtain ⟨r1, r2, r3⟩ := bumpRc_spec c ({ (t.migrateAll c).maybeResizeLocks c (2 ^ (nmf.migrateAll c).hp) with
+                     cur := (nmf.migrateAll c).cur })
+        exact ⟨r1 g1, (m2.trans g2).trans r2, fun _ => r3 g3, r3 g3⟩
+
+/-- the three mutually recursive procedures, by induction on the fuel -/
+theorem resize_all [DecidableEq κ] (c : Cfg κ) (ν : Type) :
+    ∀ fuel, PIns c ν fuel ∧ PDbl c ν fuel ∧ PExp c ν fuel := by
+  intro fuel
+  induction fuel with
+  | zero => exact ⟨insertLoop_zero c, fastDouble_zero c, expandSimple_zero c⟩
+  | succ n ih =>
+    exact ⟨insertLoop_step c n ih.1 ih.2.1, fastDouble_step c n ih.2.2, expandSimple_step c n ih.1⟩
+
+
+end Rz
+
+theorem maybeResizeLocks_spec (c : Cfg κ) (t : Table κ ν) (n : Nat) :
+    (t.maybeResizeLocks c n).cur = t.cur ∧ (t.maybeResizeLocks c n).old = t.old ∧
+    (t.maybeResizeLocks c n).rem = t.rem ∧ (t.maybeResizeLocks c n).rc = t.rc ∧
+    (t.maybeResizeLocks c n).mlf = t.mlf ∧ (t.maybeResizeLocks c n).mhp = t.mhp ∧
+    (t.maybeResizeLocks c n).workers = t.workers ∧
+    (t.maybeResizeLocks c n).sumCnt = t.sumCnt ∧
+    (AllMig t → AllMig (t.maybeResizeLocks c n)) ∧
+    (∀ (i : Nat) (lk : Lock), t.locks[i]? = some lk → (t.maybeResizeLocks c n).locks[i]? = some lk) ∧
+    t.locks.size ≤ (t.maybeResizeLocks c n).locks.size :=
+  Rz.maybeResizeLocks_spec' c t n
 
 /-- the three mutually recursive procedures, by induction on the fuel -/
 theorem insertLoop_spec [DecidableEq κ] (c : Cfg κ) (locked : Bool) (fuel : Nat) (t : Table κ ν) (k : κ)
@@ -29,8 +831,8 @@ theorem insertLoop_spec [DecidableEq κ] (c : Cfg κ) (locked : Bool) (fuel : Na
     (locked = true → AllMig (insertLoop c locked fuel t k).1) ∧
     match (insertLoop c locked fuel t k).2 with
     | .ok p => InsOK c (insertLoop c locked fuel t k).1 k p
-    | .err e => ResizeErr e := by
-  sorry
+    | .err e => ResizeErr e :=
+  (Rz.resize_all c ν fuel).1 locked t k h hl
 
 theorem fastDouble_spec [DecidableEq κ] (c : Cfg κ) (locked auto : Bool) (fuel : Nat) (t : Table κ ν) (curHp : Nat)
     (h : Inv c t) (hl : locked = true → AllMig t) :
@@ -38,8 +840,8 @@ theorem fastDouble_spec [DecidableEq κ] (c : Cfg κ) (locked auto : Bool) (fuel
     (locked = true → AllMig (fastDouble c locked auto fuel t curHp).1) ∧
     match (fastDouble c locked auto fuel t curHp).2 with
     | .ok _ => True
-    | .err e => ResizeErr e := by
-  sorry
+    | .err e => ResizeErr e :=
+  (Rz.resize_all c ν fuel).2.1 locked auto t curHp h hl
 
 theorem expandSimple_spec [DecidableEq κ] (c : Cfg κ) (locked auto : Bool) (fuel : Nat) (t : Table κ ν) (newHp : Nat)
     (h : Inv c t) (hl : locked = true → AllMig t) :
@@ -47,7 +849,7 @@ theorem expandSimple_spec [DecidableEq κ] (c : Cfg κ) (locked auto : Bool) (fu
     (locked = true → AllMig (expandSimple c locked auto fuel t newHp).1) ∧
     match (expandSimple c locked auto fuel t newHp).2 with
     | .ok _ => AllMig (expandSimple c locked auto fuel t newHp).1
-    | .err e => ResizeErr e := by
-  sorry
+    | .err e => ResizeErr e :=
+  (Rz.resize_all c ν fuel).2.2 locked auto t newHp h hl
 
 end Cuckoo.Model
